@@ -42,6 +42,17 @@ class WalkCfg(Cfg):
         super().__init__(P)
         self.rec_escape = rec_escape
 
+    def inline(self, call, ft, rc, st):
+        # private helpers of the snapshot class are part of the walk (the listing / the stat may be made in one of them)
+        if ft.startswith("self.") and ft.count(".") == 1 and st.selfcls:
+            name = ft.split(".")[1]
+            if name in ("walk", "stat", "listdir"):
+                return None
+            fi = self.program.find_method(st.selfcls, name)
+            if fi is not None and not any(isinstance(d, ast.Name) and d.id == "property" for d in fi.node.decorator_list):
+                return fi, st.selfcls, None
+        return None
+
     def raises(self, kind, text, node, st):
         if kind not in ("call", "iter"):
             return ()
